@@ -34,6 +34,29 @@ noncomputable def RC : Fns ℝ ℂ where
   truncNat := fun x => ⌊x⌋₊
   store32 := id
 
+/-! field projections of `RC` (so that proofs need not unfold `RC` inside `geom RC req`) -/
+theorem RC_ofReal (x : ℝ) : RC.ofReal x = (x : ℂ) := rfl
+theorem RC_I : RC.I = Complex.I := rfl
+theorem RC_re (z : ℂ) : RC.re z = z.re := rfl
+theorem RC_cexp (z : ℂ) : RC.cexp z = Complex.exp z := rfl
+theorem RC_exp (x : ℝ) : RC.exp x = Real.exp x := rfl
+theorem RC_log (x : ℝ) : RC.log x = Real.log x := rfl
+theorem RC_sqrt (x : ℝ) : RC.sqrt x = Real.sqrt x := rfl
+theorem RC_sin (x : ℝ) : RC.sin x = Real.sin x := rfl
+theorem RC_cos (x : ℝ) : RC.cos x = Real.cos x := rfl
+theorem RC_arctan (x : ℝ) : RC.arctan x = Real.arctan x := rfl
+theorem RC_rpow (x y : ℝ) : RC.rpow x y = x ^ y := rfl
+theorem RC_pi : RC.pi = Real.pi := rfl
+theorem RC_natCast (n : ℕ) : RC.natCast n = (n : ℝ) := rfl
+theorem RC_truncNat (x : ℝ) : RC.truncNat x = ⌊x⌋₊ := rfl
+theorem RC_store32 (z : ℂ) : RC.store32 z = z := rfl
+
+/-- rewrite applied `RC` projections to Mathlib's functions without unfolding `RC` where
+it is merely passed along -/
+macro "rc_norm" : tactic =>
+  `(tactic| simp only [RC_ofReal, RC_I, RC_re, RC_cexp, RC_exp, RC_log, RC_sqrt, RC_sin, RC_cos,
+      RC_arctan, RC_rpow, RC_pi, RC_natCast, RC_truncNat, RC_store32])
+
 theorem sumN_eq_sum {α : Type} [AddCommMonoid α] (n : ℕ) (f : ℕ → α) :
     sumN (0 : α) n f = ∑ i ∈ Finset.range n, f i := by
   induction n with
